@@ -6,7 +6,8 @@ BUILDS = BUILDS + cross.gp_builds()   # cross-property core jobs (checks/cross.p
 RULE = ("(a) explicit-state enumeration of all sequences of length len over {add, del} x keys, resize(n) for every n in {0,1,2,3,4,5,8,16,"
         "ULONG_MAX,2^63,6,7} and destroy, for the order/chunk/mmap allocators and a recording custom allocator, incl. page-granular mmap "
         "tables of 64..2048 buckets: resize must return (a hang is a horizon/livelock verdict), contents are compared with the model after "
-        "every step, 1 <= size <= max_nr_buckets, expected size reached, allocator balanced at destroy; (b) every schedule (preemption / "
+        "every step, 1 <= size <= max_nr_buckets, expected size reached, allocator balanced at destroy; counter-driven lazy requests piled up "
+        "while the worker is never scheduled and drained at the end of the sequence (the worker must park again); (b) every schedule (preemption / "
         "store-delay / pthread_create-failure budget) of explicit resizes racing with lookups of resident keys, updates, a second "
         "resizer, the partitioned helper threads, lazy chain-length and counter-driven resizes by the worker, and destroy with a resize "
         "still queued; oracles: linearizability + resident-node interval rule, bucket bounds after every operation, use-after-free on "
